@@ -276,3 +276,7 @@ def run_thorough(ck):
 # session 5 (round 9, D24)
 EXPLANATION = EXPLANATION + " " + (
     'SIB/resume-gzindex (shared with C20): the offset into a gzip header field is set to 0 when the fixed header part has been written, so an offset left by a suspended header write does not reach the member after a reset.')
+
+# session 5 (round 10)
+EXPLANATION = EXPLANATION + " " + (
+    'FIELD/reset-flags (shared with C14): reset_keep sets every defined flag bit, so a reset stream asks for its dictionary like a fresh one.')
